@@ -325,7 +325,9 @@ func TestVerifC14Deviations(t *testing.T) {
 		n := len(s.hashInput)
 		for i := 0; i < n; i++ {
 			i := i
-			add("value", fmt.Sprintf("[%d].val+1", i), func(in *[]KeyshareUserChallengeInput[string], _ *[]byte) { (*in)[i].Value = new(big.Int).Add((*in)[i].Value, vfInt(1)) })
+			add("value", fmt.Sprintf("[%d].val+1", i), func(in *[]KeyshareUserChallengeInput[string], _ *[]byte) {
+				(*in)[i].Value = new(big.Int).Add((*in)[i].Value, vfInt(1))
+			})
 			add("value", fmt.Sprintf("[%d].val=0", i), func(in *[]KeyshareUserChallengeInput[string], _ *[]byte) { (*in)[i].Value = vfInt(0) })
 			add("value-nil", fmt.Sprintf("[%d].val=nil", i), func(in *[]KeyshareUserChallengeInput[string], _ *[]byte) { (*in)[i].Value = nil })
 			add("commitment", fmt.Sprintf("[%d].comm+1", i), func(in *[]KeyshareUserChallengeInput[string], _ *[]byte) {
@@ -403,7 +405,9 @@ func TestVerifC14Deviations(t *testing.T) {
 			r.Nontrivial(fmt.Sprintf("%d|%s", si, a.desc))
 			var p *ProofP
 			var err error
-			pan, msg := vkit.Guard(func() { p, err = KeyshareResponse(s.kssSec, s.kssRand, KeyshareCommitmentRequest{HashedUserCommitments: h}, req, s.keys) })
+			pan, msg := vkit.Guard(func() {
+				p, err = KeyshareResponse(s.kssSec, s.kssRand, KeyshareCommitmentRequest{HashedUserCommitments: h}, req, s.keys)
+			})
 			rep := map[string]any{"session": s.name(), "alteration": a.desc}
 			r.Outcome(fmt.Sprintf("%s:panic=%v:err=%v", a.class, pan, err != nil))
 			switch {
